@@ -3,7 +3,7 @@
    Model: Model/Codec.v (ODVariable.encode_raw/decode_raw, struct packers, IntegerN/UnsignedN),
    tables: Gen/Tables.v regenerated from /repo on every run. *)
 From Coq Require Import ZArith List Bool.
-From CV Require Import Base.Val Base.Bytes Base.Tys Gen.Tables Model.Codec Proofs.Codec_proofs.
+From CV Require Import Base.Val Base.Bytes Base.Tys Gen.Tables Gen.Src Model.Codec Proofs.Codec_proofs Proofs.Src_eq_codec.
 Import ListNotations.
 Open Scope Z_scope.
 
@@ -89,6 +89,14 @@ Theorem C04_utf16_roundtrip : forall s, forallb is_scalar s = true -> last s 1 <
              decode_raw (Some dt_UNICODE_STRING) bs = Ok (PStr s).
 Proof. exact utf16_roundtrip. Qed.
 
+(* Tie to the source text: the range tests of IntegerN.pack / UnsignedN.pack as translated from the CURRENT source
+   by tools/py2coq.py (Gen/Src.v, regenerated on every run) are the model's in_range. *)
+Theorem C04_source_integerN_range_is_model : forall v w, 1 <= w -> src_integerN_accepts v w = in_range true w v.
+Proof. exact src_integerN_accepts_eq. Qed.
+
+Theorem C04_source_unsignedN_range_is_model : forall v w, 0 <= w -> src_unsignedN_accepts v w = in_range false w v.
+Proof. exact src_unsignedN_accepts_eq. Qed.
+
 (* ---- non-vacuity: the hypotheses are met by concrete non-trivial inputs ---- *)
 Example C04_nv_int24 : zassoc 16 STRUCT_TYPES = Some (PIntN 24) /\ int_packer (PIntN 24) = Some (true, 24) /\
   in_range true 24 (-8388608) = true /\ in_range true 24 8388608 = false /\
@@ -118,3 +126,5 @@ Print Assumptions C04_real_decode_rejects.
 Print Assumptions C04_ascii_roundtrip.
 Print Assumptions C04_ascii_rejects.
 Print Assumptions C04_utf16_roundtrip.
+Print Assumptions C04_source_integerN_range_is_model.
+Print Assumptions C04_source_unsignedN_range_is_model.
